@@ -24,6 +24,9 @@ ASSUMPTIONS = [
     "tie: engine.compare (model vs implementation transcripts) on a sample of the injected histories",
     "oracle on the implementation: lock-step of each history with and without the injected invalid call "
     "(result, can_continue, text, tags, choices, error/warning counts, events of every later op, and the final save)",
+    "host registrations (bound handlers, observers) are not in the save: they are observed through the later play of "
+    "each program's host-functions variant (EXTERNALs and re-declared ink functions bound in the setup), where the "
+    "rejected calls carry a different handler / flag / observer than the registered one",
 ]
 
 BAD_CALLS = [
